@@ -419,8 +419,16 @@ func vaRunIO(c *vaCase, x *vlExec, st *vaStats) *vlViolation {
 				vaRaise(x, "write_ret", "ioWriter.Write(%d) = %d, %v", len(p), n, err)
 				return x.viol
 			}
-			x.addWatch(p, "ioWriter.Write argument")
 			o.readable = append(o.readable, p...)
+			if (op.N+i)%2 == 0 {
+				// io.Writer: "Write must not retain p" - the caller re-uses its slice at once (io.Copy,
+				// bufio); what was written must still read back unchanged
+				for k := range p {
+					p[k] = 0xEE
+				}
+			} else {
+				x.addWatch(p, "ioWriter.Write argument")
+			}
 			st.flushes++
 		case "ioread":
 			p := make([]byte, op.N)
